@@ -53,6 +53,8 @@ func sizeKind(r events.DataEventReceiver, k string) {
 		r.OnInt(1)
 	case "f32":
 		r.OnFloat(float64(float32(1.1)))
+	case "media":
+		r.OnMedia("application/x-test", []byte{1, 2})
 	default:
 		machineryFail("DocSize: unknown value kind %q", k)
 	}
@@ -99,8 +101,10 @@ type sizeCase struct {
 	Size  int      `json:"size"`
 	Limit int      `json:"limit"`
 	Bare  bool     `json:"bare"`
-	St    string   `json:"st"`
-	At    int      `json:"at"`
+	// ABytes: the largest array of the document in bytes (what MaxArraySizeBytes is about)
+	ABytes int    `json:"abytes"`
+	St     string `json:"st"`
+	At     int    `json:"at"`
 }
 
 func (sc sizeCase) key() string { return fmt.Sprintf("%v|%s", sc.Bare, strings.Join(sc.Kinds, ",")) }
@@ -249,6 +253,34 @@ func runSizeCase(c *Check, sc sizeCase, doc []byte, entries []sizeEntry, format 
 			c.Violation(fmt.Sprintf("%s refuses %s document %x of %d bytes (%v) with MaxDocumentSizeBytes=%d: %v", en.name, format, doc, len(doc), sc.Kinds, sc.Limit, gerr), wit)
 		case !wantRefused && got != want:
 			c.Violation(fmt.Sprintf("%s on %s document %x with MaxDocumentSizeBytes=%d gives %s, without a limit %s", en.name, format, doc, sc.Limit, got, want), wit)
+		}
+		// the array size limit through the same entry point: exactly the document's largest array, one less,
+		// and 0 (which means unlimited)
+		if !wantRefused && sc.Limit == len(doc) {
+			for _, al := range []int{0, sc.ABytes, sc.ABytes - 1} {
+				if al < 0 || (al == 0 && sc.ABytes == 0 && false) {
+					continue
+				}
+				acfg := configuration.New()
+				acfg.Rules.MaxArraySizeBytes = uint64(al)
+				refuse := al > 0 && al < sc.ABytes
+				var ag string
+				var aerr error
+				p, hung = runWithWatchdog(20*time.Second, func() { ag, aerr = en.run(doc, acfg) })
+				c.Count(fmt.Sprintf("asize|%s|%s|%x|%d", format, en.name, doc, al), true)
+				c.AddTraces(1)
+				awit := map[string]interface{}{"kind": "array-size", "format": format, "entry": en.name, "doc": fmt.Sprintf("%x", doc), "largest_array_bytes": sc.ABytes, "max_array_size_bytes": al, "values": sc.Kinds}
+				switch {
+				case p != nil || hung:
+					c.Violation(fmt.Sprintf("%s on %s document %x with MaxArraySizeBytes=%d: panic %v hang %v", en.name, format, doc, al, p, hung), awit)
+				case refuse && aerr == nil && strings.Contains(en.name, "rules") || refuse && aerr == nil && strings.HasPrefix(en.name, "ce.Unmarshal"):
+					c.Violation(fmt.Sprintf("%s accepts %s document %x whose largest array has %d bytes (%v) although MaxArraySizeBytes=%d", en.name, format, doc, sc.ABytes, sc.Kinds, al), awit)
+				case !refuse && aerr != nil:
+					c.Violation(fmt.Sprintf("%s refuses %s document %x whose largest array has %d bytes (%v) with MaxArraySizeBytes=%d (0 = unlimited): %v", en.name, format, doc, sc.ABytes, sc.Kinds, al, aerr), awit)
+				case !refuse && ag != want:
+					c.Violation(fmt.Sprintf("%s on %s document %x with MaxArraySizeBytes=%d gives %s, without a limit %s", en.name, format, doc, al, ag, want), awit)
+				}
+			}
 		}
 	}
 }
